@@ -26,6 +26,7 @@ type replayCase struct {
 	Rehash    bool   `json:"rehash"`
 	NewState  bool   `json:"new_state"`
 	Tour      bool   `json:"tour,omitempty"`
+	Sparse    bool   `json:"sparse,omitempty"` // the directed plan of empty / event-less blocks (planSparse)
 	Kind      string `json:"kind"` // tamper | valid | stale | correspondence
 	Detail    string `json:"detail,omitempty"`
 }
@@ -92,6 +93,7 @@ type runner struct {
 	or *hx.Oracle
 	// budget
 	maxTampers int
+	sparse     bool // the plan being run is planSparse (recorded in replays)
 	only       *replayCase
 }
 
@@ -164,7 +166,10 @@ func main() {
 			}
 		} else {
 			r.only = &rc
-			if rc.Tour {
+			if rc.Sparse {
+				r.sparse = true
+				r.runPlan(rc.ChainSeed, planSparse(rc.ChainSeed), true)
+			} else if rc.Tour {
 				r.runTour(rc.ChainSeed)
 			} else {
 				r.runChain(rc.ChainSeed)
@@ -185,6 +190,11 @@ func main() {
 	timed("class-fixtures", r.classFixtures)
 	timed("class-hash-tie", r.classHashes)
 	timed("tour", func() { r.runTour(c.Seed) })
+	timed("sparse-blocks", func() {
+		r.sparse = true
+		r.runPlan(c.Seed, planSparse(c.Seed), true)
+		r.sparse = false
+	})
 	rng := hx.NewRNG(c.Seed)
 	start := time.Now()
 	chains := 0
